@@ -506,11 +506,17 @@ pub(crate) struct WritersHandle {
 impl WritersHandle {
     fn set_new_spec(&self, new_spec: LogSpecification) -> Result<(), FlexiLoggerError> {
         let max_level = new_spec.max_level();
+        #[cfg(flexi_logger_verif)]
+        crate::verif_hooks::point("spec.enter");
         self.spec
             .write()
             .map_err(|_| FlexiLoggerError::Poison)?
             .update_from(new_spec);
+        #[cfg(flexi_logger_verif)]
+        crate::verif_hooks::point("spec.updated");
         self.reconfigure(max_level);
+        #[cfg(flexi_logger_verif)]
+        crate::verif_hooks::point("spec.gate_set");
         Ok(())
     }
 
